@@ -51,14 +51,14 @@ NOT_APPLICABLE = {
 }
 
 
-WF = 'wf(compiled automaton): state/end_state vectors same non-zero length, transition targets in range, accepting token types listed in terminal_ids, lookahead automata well-formed and lookahead-free (producer side = build layer, not proved)'
-CLS = 'the class predicate closure is a total deterministic function of (class id, char) (cls_functional)'
+WF = 'wf(compiled automaton): state/end_state vectors same non-zero length, transition targets in range, accepting token types listed in terminal_ids, lookahead automata well-formed and lookahead-free. PRODUCER SIDE PROVED in unit U-build (checked under C01, C02, C06, C07): ScannerImpl::try_from ensures scanner_wf for every valid configuration within the size assumptions (theorem_dfa_built_wf: what CompiledDfa::try_from_patterns returns is wf), the transition lists being those of the configuration'
+CLS = 'the class predicate closure is a total deterministic function of (class id, char) (cls_functional): trusted contract of CharacterClassRegistry::create_match_char_class (class layer, unsafe get_unchecked; not under contract)'
 
 ITER = 'fm_inv(iterator): cursor on a char boundary of the input, line_offsets sorted true line starts beginning with 0, last_char consistent with the char before the cursor (established by FindMatchesImpl::new, preserved by every method; proved)'
 UTF8 = 'UTF-8 bridge axioms (units/common/str_prelude.rs): byte offsets of char prefixes are char boundaries, byte length = sum of encoded lengths, slicing at such an offset splits the char sequence there'
 C02DEP = 'that the compiled automaton recognises exactly the pattern languages is property C02 (not decided here): every statement is relative to the compiled automaton'
 
-reg('C01', ['u_dfa', 'u_mode', 'u_iter'],
+reg('C01', ['u_dfa', 'u_mode', 'u_iter', 'u_build'],
     'find_from ensures find_post (longest accepted non-empty prefix; ties -> first in terminal_ids) for every wf automaton, class predicate and input; ScannerImpl::find_from/peek_from the same for the active mode; next_match ensures is_next_tok: the token is the find_post outcome at the first char index >= cursor that has any candidate, skipped positions have none, spans absolute (add_offset), cursor moves to the token end; None only if no position has a candidate; lemma_stream_unique: for lookahead-free configurations the whole stream (stream_from = chain of is_next_tok with the mode following the transitions) is a function of configuration, input, position and mode ("exactly the tokens")',
     [WF, CLS, ITER, UTF8, C02DEP, 'add_patterns (token type = pattern index) is not under contract: Vec<Pattern> construction through iterator adapters'],
     technique='Verus function contracts (requires/ensures/loop invariants) on code extracted from /repo each run')
@@ -67,16 +67,16 @@ reg('C04', ['u_dfa', 'u_mode', 'u_iter'],
     [WF, CLS, ITER, UTF8, C02DEP])
 reg('C05', ['u_dfa'], 'find_post: the reported (length, token type) is one candidate with satisfied lookahead that is no_better-maximal in extent = own bytes + longest positive-lookahead match, ties by first position in terminal_ids; all unwrap/index/overflow obligations of find_from, priority_of, satisfies_lookahead', [WF, CLS])
 
-reg('C06', ['u_mode', 'u_iter', 'u_api'], 'mode after every operation is the function of (old mode, token type, transition list) the property states: has_transition == lookup in the sorted list; find_from switches, peek_from/has_transition/current_mode do not, set_mode sets, reset gives 0', [WF, 'set_mode(m) is called with m < number of modes (documented precondition)'])
+reg('C06', ['u_mode', 'u_iter', 'u_api', 'u_build'], 'mode after every operation is the function of (old mode, token type, transition list) the property states: has_transition == lookup in the sorted list; find_from switches, peek_from/has_transition/current_mode do not, set_mode sets, reset gives 0', [WF, 'set_mode(m) is called with m < number of modes (documented precondition)'])
 
 reg('C10', ['u_iter'],
     'set_offset/with_offset(o): o on a char boundary or beyond the input => cursor at min(o, len) on that boundary, offset field clamped, mode/scanner/line_offsets unchanged, nothing else of the old cursor survives (fm_inv re-established from the arguments only); advance_to(p) with p the end of a peeked match lands exactly on p, absolute (lemma_adv_target_boundary); next_match/peek_n contracts are functions of the abstract state only',
     [ITER, UTF8, WF])
 
-reg('C07', ['u_dfa', 'u_mode', 'u_iter', 'u_sub', 'u_mp', 'u_elim', 'u_glue', 'u_mini'],
+reg('C07', ['u_dfa', 'u_mode', 'u_iter', 'u_sub', 'u_mp', 'u_elim', 'u_glue', 'u_mini', 'u_build'],
     'spans non-empty (l >= 1), start/end are byte offsets of char indices of the input (boff), start >= previous end (cursor monotone), Some(m) => cursor strictly advances, None => cursor at end and stays there (no_more); absence of panics while scanning = every index/unwrap/overflow/slice-boundary obligation of the functions under contract. '
     'Build side (partial): every index / unwrap / expect / panic! / overflow obligation and the termination of the build functions under contract (closure layer, multi-pattern union, epsilon-elimination worklists, minimizer, lookahead glue: units U-sub, U-mp, U-elim, U-mini, U-glue) is discharged for automata that fit the 32-bit state ids: the four panic!("State .. not found") / "NFA for target state not found" sites and `.expect("NFA not found")` are unreachable, the worklists terminate; in the minimizer every unwrap (find_group, first(), position(), get_mut), every index and the panic! of renumber_states_in_transitions are unreachable and the refinement loop terminates',
-    [WF, CLS, ITER, UTF8, 'build side NOT decided for: regex-syntax parser, ScannerImpl::try_from / CompiledScannerMode (establishing wf of the scanner from the compiled automata), Nfa::try_from_ast is covered by C02/C15 (unit U-nfa: overflow obligations under th_fits); size preconditions th_fits / mp_fits (automata within 32-bit state ids) are assumed, beyond them ids wrap (C17)'])
+    [WF, CLS, ITER, UTF8, 'build side NOT decided for: regex-syntax parser, create_match_char_class (MatchFunction::try_from per registry entry), ScannerBuilder; Nfa::try_from_ast is covered by C02/C15 (unit U-nfa: overflow obligations under th_fits); size preconditions th_fits / mp_fits (automata within 32-bit state ids) are assumed, beyond them ids wrap (C17)'])
 reg('C09', ['u_iter', 'u_api'],
     'position(o): line = 1 + number of line breaks before o and column = o - line start + 1 whenever all line starts up to o are recorded (complete_upto), or the permitted same-line alternative right after a line break; next_match/advance_to record every line start of the consumed region; set_offset recomputes last_char; merge keeps line_offsets sorted, duplicate free, true line starts',
     [ITER, UTF8, 'WithPositions::next itself (generic over the inner iterator) is not under contract; its two calls are position(m.start()) and position(m.end()) after next()'])
@@ -130,7 +130,7 @@ reg('C15', ['u_ast'],
      'MultiPatternNfa::try_from_patterns / parse_regex_syntax (the path from a pattern string to try_from_ast) are not under contract'],
     technique='Verus function contract by structural recursion over the imported AST')
 
-reg('C02', ['u_nfa', 'u_sub', 'u_mp', 'u_elim', 'u_glue', 'u_lang', 'u_mini'],
+reg('C02', ['u_nfa', 'u_sub', 'u_mp', 'u_elim', 'u_glue', 'u_lang', 'u_mini', 'u_build'],
     'the build pipeline from the pattern text to the minimized automaton, as structural refinement of four specified constructions (Thompson, union, epsilon elimination, quotient). (1) Thompson layer (U-nfa): every NFA combinator and Nfa::try_from_ast produce EXACTLY thompson(ast, registry) (state vector, epsilon and class edges, start/end, {m,n} expansion, leaves registered left to right). '
     '(2) Union (U-mp): MultiPatternNfa::try_from_patterns yields mp_wf: pattern i is the Thompson automaton of its parsed text renumbered to its own id range [mp_off(i), mp_off(i+1)), ranges disjoint and ascending from 1, start transitions and token types in pattern order. '
     '(3) Closure layer (U-sub): Nfa::epsilon_closure returns exactly the reflexive-transitive epsilon closure (sorted, duplicate free), find_state/contains_state/find_nfa/is_accepting_state are the first-match lookups, get_match_transitions returns exactly the (class, target) pairs leaving the given states, for one Nfa and for the union (state 0 fans out to the pattern start states); every panic! in these functions is unreachable. '
@@ -141,7 +141,8 @@ reg('C02', ['u_nfa', 'u_sub', 'u_mp', 'u_elim', 'u_glue', 'u_lang', 'u_mini'],
      'PROVED at spec level (unit U-glue, glue_lang.rs, re-checked on every run): theorem_single_pattern_language: for the Nfa returned by try_from_ast for an AST and every elim_ok automaton d0 of it (= what From<Nfa> hands the minimizer; every lookahead automaton), every non-empty word w and token type tid: d_acc(d0, cls, w, tid) <==> re_lang(ast, lf, w) and tid is the pattern\'s token type. theorem_union_language: for the union m built by try_from_patterns (mp_built) and every elim_ok automaton d0 of it (= what From<MultiPatternNfa> hands the minimizer): d_acc(d0, cls, w, tid) <==> some pattern i of the mode has token type tid and re_lang(spec_parse(pattern i), lf, w). Proved through the bridge between runs of the Thompson view and the closure-folded runs of the graph view for renumbered NFAs (shifted_view, lemma_n_accepts) and lemma_mp_lands (landing in the union = landing in one pattern NFA)',
      'PROVED at spec level, END TO END THROUGH THE MINIMIZER (glue_lang.rs, re-checked on every run): theorem_single_pattern_minimized: for the automaton dm that From<Nfa> returns (min_of(d0, dm): contract of Minimizer::minimize, proved in U-mini) d_acc(dm, cls, w, tid) <==> re_lang(ast, lf, w) and tid is the pattern\'s token type; theorem_union_minimized: for the automaton d that CompiledDfa::try_from_patterns returns (states and end states of the minimized union, lookahead map filled in afterwards) d_acc(d, cls, w, tid) <==> some pattern of the mode with token type tid matches w; via theorem_minimize_language / theorem_quotient_language (units/u_mini/mini_spec.rs)',
      'NOT proved / outside: the meaning of leaves lf (class layer, C08) and its agreement with the registry-built class predicate (CharacterClassRegistry::create_match_char_class, not under contract) are hypotheses of the theorems (cls_ok, lf_respects); what regex-syntax\'s parser returns for a pattern text (spec_parse) is uninterpreted',
-     'NOT under contract (bounded stand-in only, see coverage.bounded_stand_in): ScannerImpl::try_from / CompiledScannerMode::try_from_scanner_mode (modes -> compiled modes), CharacterClassRegistry::create_match_char_class, the regex-syntax parser',
+     'PROVED (unit U-build): CompiledScannerMode::try_from_scanner_mode and both impl TryFrom<..> for ScannerImpl: the scanner has one compiled mode per mode of the configuration, in order, each being dfa_built (the postcondition of CompiledDfa::try_from_patterns) for its patterns on the registry left by the modes before it (mode_reg), name and transitions carried over, current mode 0, and scanner_wf; theorem_mode_language: mode k accepts (w, tid) iff some pattern of mode k with token type tid matches w',
+     'NOT under contract (bounded stand-in only, see coverage.bounded_stand_in): CharacterClassRegistry::create_match_char_class (trusted contract: total deterministic closure; that it agrees with the leaf meaning is hypothesis cls_ok), the regex-syntax parser, ScannerBuilder / Scanner::try_new above ScannerImpl::try_from',
      'TRUSTED std contracts given through wrappers (rule U5, the call is moved verbatim into an external_body function): BTreeSet::from_iter(Vec), btree_set::Iter::cloned, HashSet::into_iter, `map.iter().find(|(_, v)| **v == id).unwrap().0.clone()`; trusted contracts sort_unstable / sort_by_key / dedup (permutation, adjacent-duplicate removal), <[T]>::contains',
      'TRUSTED axioms: derived Ord of the id newtypes and of (CharClassID, StateID) is the integer / lexicographic order; BTreeSet<StateID> as a hash key has the equality of its element set; Clone of (bool, TerminalID) is the identity; FxBuildHasher builds valid hashers',
      'TRUSTED CUTS: the Err arm of try_from_patterns (message rebuilt with the pattern index) is replaced by returning an opaque error (U4); the debug `patterns` text of the compiled automaton is opaque (U6); regex-syntax\'s parser is external (spec_parse uninterpreted)',
